@@ -179,20 +179,38 @@ func c08Run(ctx context.Context, w *vWorld, account *vReplica, mat *c08Material,
 	}
 	// ---- logical quiescence: every arrival has been queued, every metadata entry handled, the consumer is parked ----
 	out.arrivals = gc.MessageStore().OpLog().Len()
+	out.queueLen, out.watchdog = c08Quiesce(gc, out.arrivals)
+	out.stuck = out.watchdog == "" && out.queueLen > 0
+	verifsched.ClearPlan()
+	out.metaEntries = gc.MetadataStore().OpLog().Len()
+	for si, snd := range mat.senders {
+		if n, ok := gc.MessageStore().CacheSizeForDevicePK(snd.device); ok {
+			out.parked[si] = n
+		}
+	}
+	_ = gc.Close()
+	sub.Close()
+	<-subDone
+	return out, nil
+}
+
+// c08Quiesce waits for the logical quiescence of a receiver's message pipeline (instrumented sources): every arrival has
+// been queued, every metadata entry handled, the consumer loop is parked in WaitForItem and nothing moved for three
+// samples. It returns the length of the processing queue at that point, or a non-empty watchdog description.
+func c08Quiesce(gc *GroupContext, arrivals int) (int, string) {
 	watchdog := time.After(40 * time.Second)
 	stableFor := 0
 	var lastSig string
 	for {
 		select {
 		case <-watchdog:
-			out.watchdog = fmt.Sprintf("arrivals=%d queued=%d meta=%d handled=%d", out.arrivals, c08Hit("store_message.go:addToMessageQueue:exit"), gc.MetadataStore().OpLog().Len(), c08Hit("group_context.go:handleGroupMetadataEvent:exit"))
-			goto done
+			return 0, fmt.Sprintf("arrivals=%d queued=%d meta=%d handled=%d", arrivals, c08Hit("store_message.go:addToMessageQueue:exit"), gc.MetadataStore().OpLog().Len(), c08Hit("group_context.go:handleGroupMetadataEvent:exit"))
 		case <-time.After(2 * time.Millisecond):
 		}
 		metaLen := int64(gc.MetadataStore().OpLog().Len())
 		queued := c08Hit("store_message.go:addToMessageQueue:exit")
 		handled := c08Hit("group_context.go:handleGroupMetadataEvent:exit")
-		if queued < int64(out.arrivals) || handled < metaLen {
+		if queued < int64(arrivals) || handled < metaLen {
 			stableFor = 0
 			continue
 		}
@@ -222,22 +240,8 @@ func c08Run(ctx context.Context, w *vWorld, account *vReplica, mat *c08Material,
 		if stableFor < 3 {
 			continue
 		}
-		out.queueLen = qlen
-		out.stuck = qlen > 0
-		goto done
+		return qlen, ""
 	}
-done:
-	verifsched.ClearPlan()
-	out.metaEntries = gc.MetadataStore().OpLog().Len()
-	for si, snd := range mat.senders {
-		if n, ok := gc.MessageStore().CacheSizeForDevicePK(snd.device); ok {
-			out.parked[si] = n
-		}
-	}
-	_ = gc.Close()
-	sub.Close()
-	<-subDone
-	return out, nil
 }
 
 // c08Judge applies the conservation oracle.
